@@ -37,6 +37,8 @@ def load_contracts():
 
 
 def module_of(c):
+    if getattr(c, "module", None):
+        return c.module
     for m in contracts.MODULES:
         mod = sys.modules[m]
         if any(v is c for v in vars(mod).values()):
